@@ -117,3 +117,142 @@ theorem comps_roots (g : Graph) (f : Nat) : ∀ (ids ord : List Nat) (pool : Poo
                 · exact Or.inr h1
 
 end Purr
+
+namespace Purr
+
+/-- every bond of every atom of `S` leads into `T` -/
+def Closed (g : Graph) (S T : List Nat) : Prop :=
+  ∀ a ∈ S, ∀ atom, g[a]? = some atom → ∀ b ∈ atom.bonds, b.tid ∈ T
+
+theorem Closed.mono {g : Graph} {S T T' : List Nat} (h : Closed g S T) (hs : ∀ x ∈ T, x ∈ T') : Closed g S T' :=
+  fun a ha atom hg b hb => hs _ (h a ha atom hg b hb)
+
+theorem Closed.append {g : Graph} {S1 S2 T : List Nat} (h1 : Closed g S1 T) (h2 : Closed g S2 T) : Closed g (S1 ++ S2) T := by
+  intro a ha
+  rcases List.mem_append.mp ha with h | h
+  · exact h1 a h
+  · exact h2 a h
+
+/-- the search from atom `a` explores everything it reaches: the remaining bonds of `a` and every bond of every newly
+    visited atom lead to visited atoms -/
+theorem kids_closed (g : Graph) : ∀ (f : Nat) (ord : List Nat) (pool : Pool) (a : Nat) (p : Option Nat) (bs : List Bond) (cur : Nat)
+    (es : List (Event × Nat)) (ord' : List Nat) (pool' : Pool) (c : Nat),
+    kids g f ord pool a p bs cur = some (es, ord', pool', c) → (∀ q, p = some q → q ∈ ord) → a ∈ ord →
+    ∃ new, ord' = ord ++ new ∧ (∀ b ∈ bs, b.tid ∈ ord') ∧ Closed g new ord' := by
+  intro f
+  induction f with
+  | zero => intro ord pool a p bs cur es ord' pool' c h; simp [kids] at h
+  | succ f ih =>
+    intro ord pool a p bs cur es ord' pool' c h hp ha
+    cases bs with
+    | nil =>
+      simp only [kids, Option.some.injEq, Prod.mk.injEq] at h
+      obtain ⟨_, rfl, _⟩ := h
+      refine ⟨[], by simp, ?_, ?_⟩
+      · intro b hb; cases hb
+      · intro x hx; cases hx
+    | cons b bs =>
+      simp only [kids] at h
+      split at h
+      · rename_i hpb
+        obtain ⟨new, h1, h2, h3⟩ := ih _ _ _ _ _ _ _ _ _ _ h hp ha
+        refine ⟨new, h1, ?_, h3⟩
+        intro b' hb'
+        simp only [List.mem_cons] at hb'
+        rcases hb' with rfl | hb'
+        · rw [h1]; simp [hp _ hpb]
+        · exact h2 b' hb'
+      · split at h
+        · rename_i hvis
+          split at h
+          · split at h
+            · rename_i es1 o1 p1 c1 hk
+              simp only [Option.some.injEq, Prod.mk.injEq] at h
+              obtain ⟨_, rfl, _⟩ := h
+              obtain ⟨new, h1, h2, h3⟩ := ih _ _ _ _ _ _ _ _ _ _ hk hp ha
+              refine ⟨new, h1, ?_, h3⟩
+              intro b' hb'
+              simp only [List.mem_cons] at hb'
+              rcases hb' with rfl | hb'
+              · rw [h1]; simp [by simpa using hvis]
+              · exact h2 b' hb'
+            · cases h
+          · cases h
+        · split at h
+          · cases h
+          · rename_i child hchild
+            split at h
+            · cases h
+            · rename_i es1 ord1 pool1 d1 hk1
+              split at h
+              · cases h
+              · rename_i es2 ord2 pool2 c2 hk2
+                simp only [Option.some.injEq, Prod.mk.injEq] at h
+                obtain ⟨_, rfl, _⟩ := h
+                obtain ⟨new1, h11, h12, h13⟩ := ih _ _ _ _ _ _ _ _ _ _ hk1
+                  (by intro q hq; cases hq; simp [ha]) (by simp)
+                have ha1 : a ∈ ord1 := by rw [h11]; simp [ha]
+                obtain ⟨new2, h21, h22, h23⟩ := ih _ _ _ _ _ _ _ _ _ _ hk2
+                  (by intro q hq; rw [h11]; simp [hp q hq]) ha1
+                have hsub : ∀ x ∈ ord1, x ∈ ord2 := by intro x hx; rw [h21]; simp [hx]
+                refine ⟨b.tid :: new1 ++ new2, by rw [h21, h11]; simp, ?_, ?_⟩
+                · intro b' hb'
+                  simp only [List.mem_cons] at hb'
+                  rcases hb' with rfl | hb'
+                  · rw [h21, h11]; simp
+                  · exact h22 b' hb'
+                · have hc0 : Closed g [b.tid] ord2 := by
+                    intro x hx atom hg b' hb'
+                    simp only [List.mem_singleton] at hx; subst hx
+                    rw [hchild] at hg; cases hg
+                    exact hsub _ (h12 b' hb')
+                  have := (hc0.append (h13.mono hsub)).append h23
+                  simpa using this
+
+/-- every component starts when everything visited so far is explored: no visited atom has a bond to an unvisited one -/
+theorem comps_roots_closed (g : Graph) (f : Nat) : ∀ (ids ord : List Nat) (pool : Pool) (es : List (Event × Nat)) (ord' : List Nat) (pool' : Pool),
+    comps g f ids ord pool = some (es, ord', pool') → Closed g ord ord →
+    Closed g ord' ord' ∧ ∀ e ∈ es, ∀ k, e.1 = .root k → ∃ pre post, ord' = pre ++ e.2 :: post ∧ e.2 ∉ pre ∧ Closed g pre pre
+  | [], ord, pool, es, ord', pool', h, hcl => by
+    simp only [comps, Option.some.injEq, Prod.mk.injEq] at h
+    obtain ⟨rfl, rfl, _⟩ := h
+    exact ⟨hcl, by intro e he; cases he⟩
+  | id :: ids, ord, pool, es, ord', pool', h, hcl => by
+    simp only [comps] at h
+    split at h
+    · exact comps_roots_closed g f ids ord pool es ord' pool' h hcl
+    · rename_i hc
+      split at h
+      · cases h
+      · rename_i root hroot
+        split at h
+        · cases h
+        · rename_i es1 ord1 pool1 c1 hk
+          split at h
+          · cases h
+          · rename_i es2 ord2 pool2 hrest
+            simp only [Option.some.injEq, Prod.mk.injEq] at h
+            obtain ⟨rfl, rfl, _⟩ := h
+            obtain ⟨new1, h11, h12, h13⟩ := kids_closed g f _ _ _ _ _ _ _ _ _ _ hk (by intro q hq; cases hq) (by simp)
+            have hsub : ∀ x ∈ ord, x ∈ ord1 := by intro x hx; rw [h11]; simp [hx]
+            have hcl1 : Closed g ord1 ord1 := by
+              rw [h11]
+              have hc0 : Closed g [id] ord1 := by
+                intro x hx atom hg b hb
+                simp only [List.mem_singleton] at hx; subst hx
+                rw [hroot] at hg; cases hg
+                exact h12 b hb
+              have := ((hcl.mono hsub).append hc0).append h13
+              rw [h11] at this
+              simpa [List.append_assoc] using this
+            obtain ⟨hcl2, hrec⟩ := comps_roots_closed g f ids ord1 pool1 es2 ord2 pool2 hrest hcl1
+            obtain ⟨new2, hn2⟩ := comps_ord_prefix g f _ _ _ _ _ _ hrest
+            refine ⟨hcl2, ?_⟩
+            intro e he k hk'
+            simp only [List.mem_cons, List.mem_append] at he
+            rcases he with (rfl | he) | he
+            · exact ⟨ord, new1 ++ new2, by rw [hn2, h11]; simp, by simpa using hc, hcl⟩
+            · exact absurd hk' (kids_no_root g f _ _ _ _ _ _ _ _ _ _ hk e he k)
+            · exact hrec e he k hk'
+
+end Purr
